@@ -855,7 +855,7 @@ impl Expression {
                             },
                         }));
                     }
-                    Some('e') | Some('.') | Some('8') | Some('9') => {
+                    Some('e') | Some('E') | Some('.') | Some('8') | Some('9') => {
                         // do nothing
                     }
                     Some(x) if is_ident_char(x) => {
